@@ -6,6 +6,7 @@ import Driver.L4
 import Driver.L5
 import Driver.L6
 import Driver.L7
+import Driver.L8
 open Clap.Driver
 
 def dispatch (line : String) : String :=
@@ -34,6 +35,9 @@ def dispatch (line : String) : String :=
     | some r => r
     | none =>
     match handleL7 cmd args with
+    | some r => r
+    | none =>
+    match handleL8 cmd args with
     | some r => r
     | none => "bad-op"
 
